@@ -494,7 +494,7 @@ theorem sendData_shape (h : Hist β) (c : Id) (L : Leader β) (hL : L.Faithful h
         · exact .ctl _ (Or.inr (Or.inl rfl))
 
 theorem handle_shape (h : Hist β) (v : View β) (hL : v.l4.Faithful h) (rid : Id) (roff : Int)
-    (ch : List Nat) : Shape h v.l2.cur rid (v.handle rid roff ch).msgs := by
+    (ch : List Nat) : Shape h v.l2b.cur rid (v.handle rid roff ch).msgs := by
   unfold View.handle
   split
   · exact .ctl _ (Or.inl rfl)
@@ -504,7 +504,7 @@ theorem handle_shape (h : Hist β) (v : View β) (hL : v.l4.Faithful h) (rid : I
       · exact .ctl _ (Or.inl rfl)
       · rename_i i0 tl _
         simp only
-        by_cases h1 : i0 ≠ v.l1.cur
+        by_cases h1 : i0 ≠ v.l1b.cur
         · rw [if_pos h1]; exact .clearThen _
         · rw [if_neg h1]
           simp only [List.nil_append]
@@ -514,7 +514,7 @@ theorem handle_shape (h : Hist β) (v : View β) (hL : v.l4.Faithful h) (rid : I
             by_cases h3 : v.l2.inputIds.head? ≠ some rid
             · rw [if_pos h3]; exact .ctl _ (Or.inr (Or.inr rfl))
             · rw [if_neg h3]
-              by_cases h4 : roff - latest v.l2.data > 0
+              by_cases h4 : roff - latest v.l2b.data > 0
               · rw [if_pos h4]; exact .handover _
               · rw [if_neg h4]; exact sendData_shape h _ v.l4 hL rid _ _
 
@@ -861,7 +861,7 @@ theorem syncLoop_ok {h : Hist β} (bk : Backend) (V : Nat → View β) (lost : N
           exact ih _ _ _ F2 _ hat2 hid2 hf2
 
 theorem session_ok {h : Hist β} (bk : Backend) (V : Nat → View β) (F : Store β) (ch : List Nat)
-    (cut lost fuel : Nat) (id : Id) (hL : ∀ n, (V n).l4.Faithful h) (hq : (V 0).l2.cur ≠ "?")
+    (cut lost fuel : Nat) (id : Id) (hL : ∀ n, (V n).l4.Faithful h) (hq : (V 0).l2b.cur ≠ "?")
     (hwf : WF bk F) (hf : FaithfulAt h F.dirs id) :
     WF bk (sessionV bk V F ch cut lost fuel).store ∧
       FaithfulAt h (sessionV bk V F ch cut lost fuel).store.dirs id := by
@@ -880,11 +880,11 @@ theorem session_ok {h : Hist β} (bk : Backend) (V : Nat → View β) (F : Store
     | clearThen ms' => exact ⟨hwf, hf⟩
     | hello o _ =>
       simp only [respErr, Out.pre_store]
-      by_cases hc : (V 0).l2.cur = ""
+      by_cases hc : (V 0).l2b.cur = ""
       · rw [if_pos hc]; exact ⟨hwf, hf⟩
       · rw [if_neg hc]
-        have hp := preSync_ok bk F (V 0).l2.cur o hc hq hwf
-        exact syncLoop_ok bk V lost (V 0).l2.cur id hc hq hL fuel 1 b rest _ _ hp.1 hp.2.1 (hf.of_sub hp.2.2)
+        have hp := preSync_ok bk F (V 0).l2b.cur o hc hq hwf
+        exact syncLoop_ok bk V lost (V 0).l2b.cur id hc hq hL fuel 1 b rest _ _ hp.1 hp.2.1 (hf.of_sub hp.2.2)
     | handover o => exact ⟨hwf, hf⟩
     | aof off cs tl k h0 hb htl => exact ⟨hwf, hf⟩
     | rdb off base s cs tl hs hb htl => exact ⟨hwf, hf⟩
@@ -958,7 +958,7 @@ theorem handle_aof_ge (v : View β) (rid : Id) (roff : Int) (ch : List Nat) (m :
       · simp only [List.cons.injEq] at hm; rw [← hm.1] at ha; simp [ctl] at ha
       · rename_i i0 tl _
         simp only at hm
-        by_cases h1 : i0 ≠ v.l1.cur
+        by_cases h1 : i0 ≠ v.l1b.cur
         · rw [if_pos h1] at hm
           simp only [List.cons_append, List.nil_append, List.cons.injEq] at hm
           rw [← hm.1] at ha; simp [ctl] at ha
@@ -972,7 +972,7 @@ theorem handle_aof_ge (v : View β) (rid : Id) (roff : Int) (ch : List Nat) (m :
             · rw [if_pos h3] at hm
               simp only [List.cons.injEq] at hm; rw [← hm.1] at ha; simp [ctl] at ha
             · rw [if_neg h3] at hm
-              by_cases h4 : roff - latest v.l2.data > 0
+              by_cases h4 : roff - latest v.l2b.data > 0
               · rw [if_pos h4] at hm
                 simp only [List.cons.injEq] at hm; rw [← hm.1] at ha; simp at ha
               · rw [if_neg h4] at hm
@@ -1283,7 +1283,7 @@ theorem preSync_pos (bk : Backend) (F : Store β) (x : Id) (loff : Int) (hx1 : x
 
 /-- the handshake answer carries the leader's channel id (or none) -/
 theorem handle_hello_id (v : View β) (roff : Int) (ch : List Nat) (m : Msg β) (ms : List (Msg β))
-    (hms : (v.handle "" roff ch).msgs = m :: ms) : m.runId = v.l2.cur ∨ m.runId = "" := by
+    (hms : (v.handle "" roff ch).msgs = m :: ms) : m.runId = v.l2b.cur ∨ m.runId = "" := by
   unfold View.handle at hms
   split at hms
   · simp only [List.cons.injEq] at hms; rw [← hms.1]; exact Or.inr rfl
@@ -1293,7 +1293,7 @@ theorem handle_hello_id (v : View β) (roff : Int) (ch : List Nat) (m : Msg β) 
       · simp only [List.cons.injEq] at hms; rw [← hms.1]; exact Or.inr rfl
       · rename_i i0 tl _
         simp only [decide_true, Bool.true_or, if_true] at hms
-        by_cases h1 : i0 ≠ v.l1.cur
+        by_cases h1 : i0 ≠ v.l1b.cur
         · rw [if_pos h1] at hms
           simp only [List.cons_append, List.nil_append, List.cons.injEq] at hms
           rw [← hms.1]; exact Or.inr rfl
@@ -1302,7 +1302,7 @@ theorem handle_hello_id (v : View β) (roff : Int) (ch : List Nat) (m : Msg β) 
           rw [← hms.1]; exact Or.inl rfl
 
 theorem session_nodiscont (bk : Backend) (V : Nat → View β) (F : Store β) (ch : List Nat)
-    (cut lost fuel : Nat) (hq : (V 0).l2.cur ≠ "?") (hwf : WF bk F) :
+    (cut lost fuel : Nat) (hq : (V 0).l2b.cur ≠ "?") (hwf : WF bk F) :
     (sessionV bk V F ch cut lost fuel).cls ≠ .discont := by
   unfold sessionV
   have hh := handle_hello_id (V 0) 0 ch
@@ -1321,7 +1321,7 @@ theorem session_nodiscont (bk : Backend) (V : Nat → View β) (F : Store β) (c
       · split
         · simp
         · next hne =>
-          have hx : m.runId = (V 0).l2.cur := (hh m ms rfl).resolve_right hne
+          have hx : m.runId = (V 0).l2b.cur := (hh m ms rfl).resolve_right hne
           have hx2 : m.runId ≠ "?" := hx ▸ hq
           have hp := preSync_ok bk F m.runId m.offset hne hx2 hwf
           exact syncLoop_nodiscont bk V lost m.runId hne hx2 fuel 1 b _ _ _ hp.1 hp.2.1
@@ -1525,8 +1525,8 @@ theorem preSync_ksub (bk : Backend) (F : Store β) (x : Id) (loff : Int) (hx1 : 
 /-- a session never creates or changes a directory other than the one of the id the
     leader announced in its handshake -/
 theorem session_ksub (bk : Backend) (V : Nat → View β) (F : Store β) (ch : List Nat)
-    (cut lost fuel : Nat) (hq : (V 0).l2.cur ≠ "?") (hwf : WF bk F) :
-    KSub (V 0).l2.cur (sessionV bk V F ch cut lost fuel).store.dirs F.dirs := by
+    (cut lost fuel : Nat) (hq : (V 0).l2b.cur ≠ "?") (hwf : WF bk F) :
+    KSub (V 0).l2b.cur (sessionV bk V F ch cut lost fuel).store.dirs F.dirs := by
   unfold sessionV
   have hh := handle_hello_id (V 0) 0 ch
   generalize (V 0).handle "" 0 ch = rp at hh ⊢
@@ -1544,7 +1544,7 @@ theorem session_ksub (bk : Backend) (V : Nat → View β) (F : Store β) (ch : L
       · split
         · exact KSub.refl _ _
         · next hne =>
-          have hx : m.runId = (V 0).l2.cur := (hh m ms rfl).resolve_right hne
+          have hx : m.runId = (V 0).l2b.cur := (hh m ms rfl).resolve_right hne
           have hx2 : m.runId ≠ "?" := hx ▸ hq
           have hp := preSync_ok bk F m.runId m.offset hne hx2 hwf
           have h1 := syncLoop_ksub bk V lost m.runId hne hx2 fuel 1 b rest _ _ hp.1 hp.2.1
@@ -2180,7 +2180,7 @@ theorem handover_stops_leader (v : View β) (rid : Id) (roff : Int) (ch : List N
       · rename_i i0 tl hi
         rw [hi] at hm
         simp only at hm ⊢
-        have hpre : ∀ m' ∈ (if i0 ≠ v.l1.cur then [ctl .clear] else ([] : List (Msg β))), m'.code ≠ .handover := by
+        have hpre : ∀ m' ∈ (if i0 ≠ v.l1b.cur then [ctl .clear] else ([] : List (Msg β))), m'.code ≠ .handover := by
           intro m' hm'
           split at hm'
           · simp [ctl] at hm'; subst hm'; simp
@@ -2194,7 +2194,7 @@ theorem handover_stops_leader (v : View β) (rid : Id) (roff : Int) (ch : List N
             by_cases h4 : v.l2.inputIds.head? ≠ some rid
             · rw [if_pos h4] at hm; simp [ctl] at hm; subst hm; simp at hcode
             · rw [if_neg h4] at hm ⊢
-              by_cases h5 : roff - latest v.l2.data > 0
+              by_cases h5 : roff - latest v.l2b.data > 0
               · rw [if_pos h5]; rfl
               · rw [if_neg h5] at hm
                 exact absurd hcode (sendData_no_handover _ _ _ _ m hm)
